@@ -3,7 +3,7 @@
 # Copyright (c) 2015-2020 ODC Contributors
 # SPDX-License-Identifier: Apache-2.0
 import threading
-from numbers import Integral
+from numbers import Integral, Real
 import warnings
 from typing import (
     TYPE_CHECKING,
@@ -386,7 +386,7 @@ class CRS:
             else:
                 # assume already in lon/lat
                 _bbox = x.boundingbox
-        elif isinstance(x, (float, int)):
+        elif isinstance(x, Real):  # int, float, numpy scalars
             if y is None:
                 y = 0.0
             _bbox = geom.BoundingBox(x, y, x, y)
